@@ -273,7 +273,7 @@ def make_run(env, names, tick=1.0, mode="tick1"):
                     sender.answer(0, agent.handle(sender.pending[0]["packet"]))
                     loop.run_ready()
                 if not warm.done() or warm.exception() is not None:
-                    raise HarnessError("warm-up exchange failed")
+                    raise world.ScenarioUnavailable("warm-up exchange failed")
                 agent.reboot()
                 del agent.log[:]
             tasks = []
@@ -494,9 +494,12 @@ def run_shard(params, acc):
         ns = [exchanges_of(env, n) for n in names]
         if root:
             ns[root[0]] -= 1
-        multinomial = factorial(sum(ns))
-        for n in ns:
-            multinomial //= factorial(n)
+        if min(ns) >= 0:
+            multinomial = factorial(sum(ns))
+            for n in ns:
+                multinomial //= factorial(n)
+        else:
+            multinomial = None  # an operation that fails before it sends anything
         if multinomial != stats.executions:
             # the closed form assumes that every operation sends the requests
             # it sends when running alone (a client that lets identical
@@ -504,7 +507,7 @@ def run_shard(params, acc):
             # schedules once more by plain recursion instead
             recount = explore.count_leaves(run, root=root)
             if recount != stats.executions:
-                raise HarnessError("explorer ran %d schedules of %r, multinomial says %d, independent recursion %d" % (stats.executions, names, multinomial, recount))
+                raise HarnessError("explorer ran %d schedules of %r, multinomial says %r, independent recursion %d" % (stats.executions, names, multinomial, recount))
             acc.bump("recursive_count_cross_checks", 1)
         else:
             acc.bump("multinomial_cross_checks", 1)
